@@ -33,6 +33,9 @@ func TestMain(m *testing.M) { pbt.Main(m) }
 
 func genCase(t *rapid.T) zipgen.ListCase {
 	c := zipgen.GenList(t, true)
+	if gen.Chance(t, 10, "scratchname") {
+		zipgen.AddScratchName(t, &c)
+	}
 	if gen.Chance(t, 5, "dupkinds") {
 		// the same path listed twice with different kinds (the verdict of the file check depends on which comes
 		// first), in a list long enough for sorting algorithms to leave their small-input path (12, 16, 32 elements)
